@@ -161,6 +161,26 @@ def gen_case(rng, regime=None, material=None, mode=None, ntubes=None, days=None,
     return dict(material=material, mode=mode, period=float(period), days=days, tubes=tubes, regime=regime)
 
 
+def curved_case(rng, material):
+    """one tube, one or two material points following the SAME smooth non-proportional (elliptic) strain path
+    e(t) = A cos wt + B sin wt sampled at 24 instants; low constant stress so that fatigue governs.  The two
+    farthest-apart states of such a path are in general not instants at which any single component peaks."""
+    npr = np.random.default_rng(rng.getrandbits(32))
+    nt, nq = 25, rng.randint(1, 2)
+    amp = 10 ** rng.uniform(-2.9, -2.45)
+    A, B = npr.uniform(-1, 1, 6) * amp, npr.uniform(-1, 1, 6) * amp * rng.uniform(0.3, 1.0)
+    ph = 2 * np.pi * np.arange(nt) / (nt - 1)
+    path = A[:, None] * np.cos(ph)[None, :] + B[:, None] * np.sin(ph)[None, :]          # (6, nt)
+    strain = np.zeros((6, nt, 1, nq))
+    for q in range(nq):
+        strain[:, :, 0, q] = path * (1.0 if q == 0 else 0.8)
+    stress = np.zeros((6, nt, 1, nq)); stress[2] = rng.uniform(5.0, 20.0)
+    temp = np.full((nt, 1, nq), common_tmax() - rng.uniform(60.0, 150.0))
+    times = np.linspace(0.0, 24.0, nt)
+    return dict(material=material, mode="lump", period=24.0, days=1, regime="crossing",
+                tubes=[dict(stress=stress, strain=strain, temp=temp, times=times)])
+
+
 def case_to_json(case):
     return dict(material=case["material"], mode=case["mode"], period=case["period"], days=case["days"],
                 regime=case.get("regime"),
